@@ -27,7 +27,7 @@ const PROFILES: [Profile; 11] = [
     Profile::Huge,
 ];
 
-const CALLS: [DMode; 5] = [DMode::Dispatch, DMode::Par, DMode::Seq, DMode::SeqTl, DMode::TlOnly];
+const CALLS: [DMode; 7] = [DMode::Dispatch, DMode::Dispatch, DMode::Par, DMode::Seq, DMode::SeqTl, DMode::TlOnly, DMode::RunNow];
 
 fn case(rng: &mut Rng, pools: &mut Pools, rep: &mut Report, case_no: u64) {
     let profile = *rng.pick(&PROFILES);
@@ -71,8 +71,39 @@ fn case(rng: &mut Rng, pools: &mut Pools, rep: &mut Report, case_no: u64) {
     let mut calls = Vec::new();
     let small = plan.n_systems_total() <= 80;
     let mut bad = false;
+    let mut panics_survived = 0usize;
     for step in 0..len {
         let m = *rng.pick(&CALLS);
+        // now and then one call of the sequence panics (a system fails), the caller catches it and
+        // carries on: the counts of that one call are unknowable, every later call is exact again
+        if small && step + 1 < len && rng.chance(1, 12) {
+            let victims: Vec<u32> = {
+                let mut v = Vec::new();
+                plan.walk(&mut |it, d| {
+                    if let crate::plan::Item::Sys(s) = it {
+                        if d == 0 {
+                            v.push(s.uid);
+                        }
+                    }
+                });
+                v
+            };
+            if !victims.is_empty() && m.runs_units() {
+                let v = *rng.pick(&victims);
+                inst.ctx.inject[v as usize].store(INJ_PANIC_RUN, SeqCst);
+                let r = inst.run_quiet(m);
+                inst.ctx.inject[v as usize].store(INJ_NONE, SeqCst);
+                let _ = crate::sys::take_pool_panics();
+                if r.is_some() {
+                    panics_survived += 1;
+                    calls.push("(call with a panicking system, caught)");
+                    seq_hash = mix(seq_hash, 0xdead);
+                    // re-baseline: whatever ran, ran
+                    expected = inst.ctx.run_counts();
+                    continue;
+                }
+            }
+        }
         seq_hash = mix(seq_hash, m as u64);
         calls.push(m.name());
         let e1 = expected_counts(&plan, m, n_uids);
@@ -118,6 +149,7 @@ fn case(rng: &mut Rng, pools: &mut Pools, rep: &mut Report, case_no: u64) {
         }
     }
     let _ = inst.ctx.take_violations();
+    rep.metric("panicking_calls_survived", panics_survived as i64);
 
     // ---- sendable conversion keeps exactly-once (no thread-local systems at top level) ----
     if !bad && plan.tls().is_empty() && rng.chance(1, 3) {
@@ -191,7 +223,7 @@ pub fn run(args: &Args) -> i32 {
             break;
         }
         let mut rng = Rng::new(args.case_seed(c));
-        case(&mut rng, &mut pools, &mut rep, c);
+        guard_case(&mut rep, c, |rep| case(&mut rng, &mut pools, rep, c));
     }
     rep.finish();
     0
